@@ -88,4 +88,26 @@ CHECKS = {
                 'replayed conclusion equals the static one is the ProofThunk assertion (C08).',
         'design_ref': 'DESIGN.md section 3, C10',
     },
+    'C07': {
+        'level': 'other',
+        'technique': 'symbolic path evaluation of the rule methods (ast): conclusion shape, guard-on-every-path, override-chain forwarding',
+        'text': 'modus_ponens, exists_generalization and instantiate of BasicInterpreter are evaluated symbolically: every returning path '
+                'yields exactly the documented conclusion and has passed a raising destructuring of the premise as an implication and the '
+                'side condition of the rule, so inapplicable premises are refused on all paths (not on sampled ones); all 15 overrides in '
+                'the interpreter classes pass the same arguments on exactly once and return that value; Pattern.extract/unwrap raise on a '
+                'non-implication; ProofExp repeats the antecedent check. The freshness judgement is C06.',
+        'note': 'Trusted: python ast; assert statements enabled; evar_is_free soundness is C06.',
+        'design_ref': 'DESIGN.md section 3, C07',
+    },
+    'C08': {
+        'level': 'other',
+        'technique': 'who-may-construct table, forwarding-shape rule over the transformer classes, static-vs-dynamic conclusion comparison',
+        'text': 'Decides the structural facts that make all interpreters agree: Proved is constructed only at 11 listed sites; '
+                'InterpreterTransformer forwards each of the 24 interface methods (and both phase transitions) once, with the same '
+                'arguments, returning the forwarded value; the instantiation optimiser returns BasicInterpreter\'s value; ProofThunk '
+                'returns only after dynamic == static conclusion; each ProofExp primitive advertises the term BasicInterpreter computes; '
+                'sibling empty-map guards agree. Joint behaviour on concrete expressions is not observed.',
+        'note': 'Trusted: python ast; the listed construction sites were confirmed by reading.',
+        'design_ref': 'DESIGN.md section 3, C08',
+    },
 }
